@@ -68,16 +68,18 @@ Print Assumptions C01_refuted_tools.
 
 (* Partial 1 (executable classifiers): histories in which no action outputs a directory (defect_class), no filegroup
    links a source DIRECTORY (fg_dir_free: the same defect - the path hash of a directory ignores entry names - reaches
-   filegroups of directories; filegroups of directories are inside C01_partial_path_inj and C03_full), no target of a
-   request uses tools (executable classifier tool_free_history: C01_refuted_tools is about them; the no-op and cut-off
-   theorems of C03_full cover tools) and no
+   filegroups of directories; filegroups of directories are inside C01_partial_path_inj and C03_full), no two turns of a
+   target whose command reads the NAMES of its tools' outputs have the same rule key and the same source key but different
+   tool output paths (executable classifier tool_rename_free = exactly the shape of C01_refuted_tools: a tool output renamed
+   with identical content under a user that reads names; TOOLS ARE INSIDE THE THEOREM: tool outputs that change content,
+   appear, disappear or are renamed with other content, users that read the content of their tools) and no
    build rebuilt a target with output_dirs after the post-build check (quiet_history: Engine.stale_flow evaluated
    along the history; trivially true without such targets - earlier builds of the history may even have used the
    cache).  The conclusion covers the discovered outputs of output_dirs targets (all_outs_of). *)
 Theorem C01_partial :
   forall (h : list hstep) (r : repo) (req : list str),
     wf_history (h ++ [HBuild false r req]) ->
-    tool_free_history (h ++ [HBuild false r req]) = true ->
+    tool_rename_free (h ++ [HBuild false r req]) = true ->
     (forall t, In t (history_targets (h ++ [HBuild false r req])) -> defect_class t = None) ->
     fg_dir_free (h ++ [HBuild false r req]) = true ->
     quiet_history (h ++ [HBuild false r req]) empty_store = true ->
@@ -102,7 +104,7 @@ Theorem C01_partial_path_inj :
     (forall t ins news, U t -> Forall good (map snd ins) -> result t ins = Some news -> Forall good (map snd news)) ->
     forall h r req,
       forallb step_wf (h ++ [HBuild false r req]) = true ->
-      tool_free_history (h ++ [HBuild false r req]) = true ->
+      tool_rename_free (h ++ [HBuild false r req]) = true ->
       (forall t, In t (history_targets (h ++ [HBuild false r req])) -> U t) ->
       (forall n, In n (history_fg_srcs (h ++ [HBuild false r req])) -> good n) ->
       quiet_history (h ++ [HBuild false r req]) empty_store = true ->
@@ -112,8 +114,8 @@ Theorem C01_partial_path_inj :
       /\ forall t, In t (r_targets (restrict r req)) -> ~ In (t_label t) (rn_failed clean) ->
          outs_of (rn_st incr) t = outs_of (rn_st clean) t /\ all_outs_of (rn_st incr) t = all_outs_of (rn_st clean) t.
 Proof.
-  intros U good H1 H2 H3 H4 h r req Hwf Htf.
-  exact (incremental_is_clean U good H1 H2 H3 H4 false h r req (wf_t_of _ Hwf Htf)).
+  intros U good H1 H2 H3 H4 h r req.
+  exact (incremental_is_clean_tools U good H1 H2 H3 H4 false h r req).
 Qed.
 Print Assumptions C01_partial_path_inj.
 
@@ -128,7 +130,7 @@ Example C01_nonvacuous :
   wf_history ([HBuild false nv_r1 [s "//p:b"]] ++ [HBuild false nv_r2 [s "//p:b"]])
   /\ (forall t, In t (history_targets ([HBuild false nv_r1 [s "//p:b"]] ++ [HBuild false nv_r2 [s "//p:b"]])) -> defect_class t = None)
   /\ fg_dir_free ([HBuild false nv_r1 [s "//p:b"]] ++ [HBuild false nv_r2 [s "//p:b"]]) = true
-  /\ tool_free_history ([HBuild false nv_r1 [s "//p:b"]] ++ [HBuild false nv_r2 [s "//p:b"]]) = true
+  /\ tool_rename_free ([HBuild false nv_r1 [s "//p:b"]] ++ [HBuild false nv_r2 [s "//p:b"]]) = true
   /\ quiet_history ([HBuild false nv_r1 [s "//p:b"]] ++ [HBuild false nv_r2 [s "//p:b"]]) empty_store = true
   /\ rn_log (plz_build false nv_r2 [s "//p:b"] (run_history [HBuild false nv_r1 [s "//p:b"]] empty_store)) = [s "//p:b"]
   /\ rn_log (plz_build false nv_r2 [s "//p:b"] empty_store) = [s "//p:b"; s "//p:a"]
@@ -154,7 +156,7 @@ Example C01_nonvacuous_output_dirs :
   wf_history (nvo_h ++ [HBuild false nvo_r3 [s "//p:t"]])
   /\ (forall t, In t (history_targets (nvo_h ++ [HBuild false nvo_r3 [s "//p:t"]])) -> defect_class t = None)
   /\ fg_dir_free (nvo_h ++ [HBuild false nvo_r3 [s "//p:t"]]) = true
-  /\ tool_free_history (nvo_h ++ [HBuild false nvo_r3 [s "//p:t"]]) = true
+  /\ tool_rename_free (nvo_h ++ [HBuild false nvo_r3 [s "//p:t"]]) = true
   /\ quiet_history (nvo_h ++ [HBuild false nvo_r3 [s "//p:t"]]) empty_store = true
   /\ rn_log (plz_build false nvo_r3 [s "//p:t"] (run_history nvo_h empty_store)) = []
   /\ all_outs_of (rn_st (plz_build false nvo_r3 [s "//p:t"] (run_history nvo_h empty_store))) (nvo_t [s "a.txt"; s "b.txt"] (s "k2"))
@@ -166,3 +168,47 @@ Proof.
   - split; [|vm_compute; repeat split].
     intros t Ht. cbn in Ht. destruct Ht as [<-|[<-|[<-|[<-|[]]]]]; reflexivity.
 Qed.
+
+(* Non-vacuity with TOOLS (the shapes of the tools witness minus the rename-with-identical-content).  gen is a tool of
+   use (ToolNames: writes the names of the tool's outputs) and of cat (UseTool: cat $TOOLS $SRCS).  Tree 1: gen writes "tool"
+   to gen.out.  Tree 2: gen's output is renamed gen.out -> gen2.out WITH other content ("tool2") and a second output gen3.out
+   appears.  Tree 3: gen3.out disappears.  Last build: tree 3 with cat's source edited.  Every hypothesis of C01_partial
+   holds (tool_rename_free included); the last build is genuinely incremental - gen and use are skipped, cat re-runs - and use
+   has the names a clean build writes. *)
+Definition nt_gen (outs : list str) (arg key : str) : target := mkT (s "//p:gen") (s "p") (Genrule (Const arg)) [] outs key.
+Definition nt_cat : target := mkT (s "//p:cat") (s "p") (Genrule UseTool) [SFile (s "u.txt"); STool (s "//p:gen")] [s "cat.out"] (s "kc").
+Definition nt_r1 : repo := mkR [(s "p/u.txt", s "u")] [nt_gen [s "gen.out"] (s "tool") (s "k1"); tw_use; nt_cat].
+Definition nt_r2 : repo := mkR [(s "p/u.txt", s "u")] [nt_gen [s "gen2.out"; s "gen3.out"] (s "tool2") (s "k2"); tw_use; nt_cat].
+Definition nt_r3 (u : str) : repo := mkR [(s "p/u.txt", u)] [nt_gen [s "gen2.out"] (s "tool2") (s "k3"); tw_use; nt_cat].
+Definition nt_req : list str := [s "//p:use"; s "//p:cat"].
+Definition nt_h : list hstep := [HBuild false nt_r1 nt_req; HBuild false nt_r2 nt_req; HBuild false (nt_r3 (s "u")) nt_req].
+Example C01_nonvacuous_tools :
+  wf_history (nt_h ++ [HBuild false (nt_r3 (s "v")) nt_req])
+  /\ (forall t, In t (history_targets (nt_h ++ [HBuild false (nt_r3 (s "v")) nt_req])) -> defect_class t = None)
+  /\ fg_dir_free (nt_h ++ [HBuild false (nt_r3 (s "v")) nt_req]) = true
+  /\ tool_rename_free (nt_h ++ [HBuild false (nt_r3 (s "v")) nt_req]) = true
+  /\ quiet_history (nt_h ++ [HBuild false (nt_r3 (s "v")) nt_req]) empty_store = true
+  /\ length (history_turns (nt_h ++ [HBuild false (nt_r3 (s "v")) nt_req]) empty_store) = 4
+  /\ rn_log (plz_build false (nt_r3 (s "v")) nt_req (run_history nt_h empty_store)) = [s "//p:cat"]
+  /\ rn_log (plz_build false (nt_r3 (s "v")) nt_req empty_store) = [s "//p:cat"; s "//p:use"; s "//p:gen"]
+  /\ outs_of (rn_st (plz_build false (nt_r3 (s "v")) nt_req (run_history nt_h empty_store))) tw_use
+     = [(s "use.out", Some (File false (s "gen2.out" ++ nl)))]
+  /\ outs_of (rn_st (plz_build false (nt_r3 (s "v")) nt_req (run_history nt_h empty_store))) nt_cat
+     = [(s "cat.out", Some (File false (s "tool2" ++ nl ++ s "v")))].
+Proof.
+  split; [split; [vm_compute; reflexivity|]|].
+  - intros t t' Ht Ht' E. cbn in Ht, Ht'.
+    repeat (destruct Ht as [<-|Ht]); try contradiction; repeat (destruct Ht' as [<-|Ht']); try contradiction;
+      try reflexivity; vm_compute in E; discriminate E.
+  - split; [|vm_compute; repeat split].
+    intros t Ht. cbn in Ht. repeat (destruct Ht as [<-|Ht]); try contradiction; reflexivity.
+Qed.
+
+(* ... and the classifier is needed and is narrow: it rejects exactly the refutation witness C01_refuted_tools (gen.out renamed
+   gen2.out with IDENTICAL content under the user that writes names), whose other hypotheses all hold *)
+Example C01_tools_classifier_rejects_witness :
+  tool_rename_free ([HBuild false tw_r1 [s "//p:use"]] ++ [HBuild false tw_r2 [s "//p:use"]]) = false
+  /\ forallb step_wf ([HBuild false tw_r1 [s "//p:use"]] ++ [HBuild false tw_r2 [s "//p:use"]]) = true
+  /\ fg_dir_free ([HBuild false tw_r1 [s "//p:use"]] ++ [HBuild false tw_r2 [s "//p:use"]]) = true
+  /\ quiet_history ([HBuild false tw_r1 [s "//p:use"]] ++ [HBuild false tw_r2 [s "//p:use"]]) empty_store = true.
+Proof. vm_compute. repeat split. Qed.
